@@ -289,6 +289,10 @@ class C16(Monitor):
                     t = ("-00" + t[1:]) if t.startswith("-") else ("00" + t)
                 sp.append((w[0].lower() if srnd.random() < 0.15 else w[0]) + t)
             srnd.shuffle(sp)
+            if srnd.random() < 0.25:
+                # words the arc handler has no use for (circle count, laser power, feed, extrusion) anywhere among the others
+                for extra in srnd.sample(["P1", "S255", "F1500", "E0.5", "T0", "P2"], srnd.randint(1, 2)):
+                    sp.insert(srnd.randint(0, len(sp)), extra)
             sep = srnd.choice([" ", " ", " ", "", "\t", "  "])
             code = "G2" if it["cw"] else "G3"
             cmd = srnd.choice([code, code, code, "G0" + code[1], code.lower()]) + (sep if sep or srnd.random() < 0.5 else " ") + sep.join(sp)
